@@ -110,7 +110,7 @@ class PandasSide(Side):
     def sym(self, tabs, nrows):
         indexes = None
         if self.inmap:
-            indexes = {spec.get("table", t): spec["index"] for t, spec in self.inmap.items() if spec.get("index") is not None}
+            indexes = {spec.get("table", t): spec["index"] for t, spec in self.inmap.items() if isinstance(spec, dict) and spec.get("index") is not None}
             tabs, nrows = apply_inmap(self.inmap, tabs, nrows)
         r = rel.run_pandas(self.ops, tabs, nrows, indexes=indexes)
         return apply_outmap(self.outmap, r)
@@ -123,6 +123,67 @@ class PandasSide(Side):
 
     def describe(self):
         return "pandas: " + self.src + (f" inmap={self.inmap}" if self.inmap else "")
+
+
+class RecordMapSide(Side):
+    """RecordMap.transform(frame) called directly on a frame (no TableDescription step in front, so the frame's own column order reaches the transform)"""
+
+    def __init__(self, rm_src, table, backend="pandas", inmap=None):
+        self.rm_src, self.table, self.backend, self.inmap = rm_src, table, backend, inmap
+        self.name = f"{backend} RecordMap.transform"
+
+    def prepare(self):
+        self.rm = build_ops_any(self.rm_src)
+
+    def sym(self, tabs, nrows):
+        if self.inmap:
+            tabs, nrows = apply_inmap(self.inmap, tabs, nrows)
+        try:
+            with warnings.catch_warnings():
+                warnings.simplefilter("ignore")
+                if self.backend == "pandas":
+                    model = load.sym_pandas_model()
+                    res = self.rm.transform(rel.sym_frame(tabs[self.table], nrows[self.table]), local_data_model=model)
+                    cols = list(res.columns)
+                    return rel.SideResult(cols, [[res._cols[c][i] for c in cols] for i in range(res._n)])
+                from vf.sym import plside, plshim
+
+                model = plside.sym_polars_model(False)
+                f = plshim.DataFrame({k: list(v) for k, v in tabs[self.table].items()}, _n=nrows[self.table])
+                res = self.rm.transform(f, local_data_model=model)
+                cols = list(res.columns)
+                return rel.SideResult(cols, [[res._cols[c][i] for c in cols] for i in range(res._n)])
+        except Unmodelled as u:
+            return rel.SideResult(unmodelled=str(u))
+        except Exception as e:
+            return rel.SideResult(exc=f"{type(e).__name__}: {str(e)[:200]}")
+
+    def real(self, frames):
+        if self.inmap:
+            frames = apply_inmap_real(self.inmap, frames)
+        try:
+            f = frames[self.table]
+            with warnings.catch_warnings():
+                warnings.simplefilter("ignore")
+                if self.backend == "pandas":
+                    return rel._frame_to_rows(self.rm.transform(f.copy())), None
+                import polars as pl
+
+                res = self.rm.transform(pl.from_pandas(f))
+                return (list(res.columns), [[rel._py(v) for v in r] for r in res.rows()]), None
+        except BaseException as e:
+            if isinstance(e, (KeyboardInterrupt, SystemExit)):
+                raise
+            return None, f"{type(e).__name__}: {str(e)[:200]}"
+
+    def describe(self):
+        return f"{self.backend}: ({self.rm_src}).transform({self.table})"
+
+
+def build_ops_any(src):
+    with warnings.catch_warnings():
+        warnings.simplefilter("ignore")
+        return eval(src, ns())
 
 
 class PandasSeqSide(Side):
@@ -326,6 +387,8 @@ def make_side(d):
         return PandasSide(d["src"], d.get("inmap"), d.get("outmap"))
     if k == "sql":
         return SQLSide(d["src"], d.get("dialect", "sqlite"), d.get("options"), d.get("allow_extend_merges"), d.get("inmap"), d.get("outmap"))
+    if k == "recmap":
+        return RecordMapSide(d["rm"], d["table"], d.get("backend", "pandas"), d.get("inmap"))
     if k == "pandas_seq":
         return PandasSeqSide(d["stages"])
     if k == "pandas_steps":
@@ -345,6 +408,9 @@ def make_side(d):
 def apply_inmap(inmap, tabs, nrows):
     """input map specs per table: table (rename table), perm (row permutation), rename (columns), keep (columns), drop (omit the table),
     take_from (alt_table, [cols]): take these columns' cells from another (pseudo) table of the same height"""
+    if "__fn__" in inmap:  # derive the backend's input tables from the symbolic ones by a (structure-free) function, e.g. a reference unpivot
+        path, args = inmap["__fn__"]
+        tabs, nrows = forksym._resolve(path)(tabs, dict(nrows), *args, symbolic=True)
     t2, n2 = {}, {}
     for t, cols in tabs.items():
         spec = inmap.get(t, {})
@@ -372,6 +438,17 @@ def apply_inmap(inmap, tabs, nrows):
 
 
 def apply_inmap_real(inmap, frames):
+    if "__fn__" in inmap:
+        import pandas as pd
+
+        path, args = inmap["__fn__"]
+        lists = {t: {c: [rel._py(v) for v in f[c].tolist()] for c in f.columns} for t, f in frames.items()}
+        kinds = {t: dict(getattr(f, "attrs", {}).get("kinds", {})) for t, f in frames.items()}
+        lists2, _ = forksym._resolve(path)(lists, {t: f.shape[0] for t, f in frames.items()}, *args, symbolic=False)
+        frames = {}
+        for t, cols in lists2.items():
+            frames[t] = pd.DataFrame({c: pd.Series(v, dtype=(object if any(isinstance(x, str) for x in v) else None)) for c, v in cols.items()})
+            frames[t].attrs["kinds"] = kinds.get(t, {})
     out = {}
     for t, f in frames.items():
         spec = inmap.get(t, {})
